@@ -275,6 +275,14 @@ func checkC13(c *Check) {
 				nrun++
 				// the receiver is the order object allocated in this very function (its constructor), outside any loop
 				_, fresh := g.Call.Args[0].(*ssa.Alloc)
+				if ld, isLd := g.Call.Args[0].(*ssa.UnOp); isLd && !fresh {
+					// held in a local that is assigned once, with a fresh allocation (new(order) filled field by field)
+					if slot, isA := ld.X.(*ssa.Alloc); isA {
+						if sv := singleStore(slot); sv != nil {
+							_, fresh = sv.(*ssa.Alloc)
+						}
+					}
+				}
 				if !fresh {
 					fresh = strings.HasPrefix(Sym(g.Call.Args[0]), "&bidengine.order{")
 				}
